@@ -84,7 +84,7 @@ func TestCountE(t *testing.T) {
 				continue
 			}
 			n := 0
-			enumE(tr, tr.full || (th && !tr.noQuickE), func(eSpec) { n++ })
+			enumE(tr, tr.full || (th && !tr.noQuickE && !tr.thoroughOnly), func(eSpec) { n++ })
 			fmt.Println(th, tr.ID, n)
 			total += n
 		}
